@@ -136,7 +136,18 @@ def parse_decimal_text(text: str) -> Fraction:
     else:
         ip, fp = mant, ''
     digits = (ip + fp) or '0'
-    v = Fraction(int(digits)) * (Fraction(10) ** (exp - len(fp)))
+    m = int(digits)
+    e10 = exp - len(fp)
+    if m == 0:
+        return Fraction(0)
+    # magnitude shortcuts (exact for binary32/64): 10^(L-1+e10) <= |v| < 10^(L+e10)
+    L = len(str(m))
+    if L + e10 > 400:
+        v = Fraction(10) ** 400
+    elif L + e10 < -400:
+        v = Fraction(1, 10 ** 400)
+    else:
+        v = Fraction(m) * (Fraction(10) ** e10)
     return -v if neg else v
 
 
@@ -377,3 +388,14 @@ def valid_call(rng, iface: Iface, decl: Decl, newline=True, absolute=False, spac
     text = render_unit(rng, rel, q, [a[0] for a in args], absolute, spaces)
     entry = f"{decl.id}({','.join(a[1][1] for a in args)})"
     return text, entry, [m.upper() for m in mn]
+
+
+def decl_errs(decl):
+    """errors the handler of `decl` itself raises when invoked (by its declared behaviour)"""
+    b = decl.beh
+    if b.startswith('errc:'):
+        _, n, d = b.split(':')
+        return [f'c{n}:{d}']
+    if b.startswith('err:'):
+        return [b[4:]]
+    return []
